@@ -652,6 +652,7 @@ func (f *frame) enterLoop(li *loopInfo, predIdx []int, conds []string) {
 	mods := f.modsInLoop(li)
 	pre := f.st
 	f.havocTo(f.st, mods)
+	f.st.loop = true // the loop body may write the function's own locals: no stack-object frame for this havoc
 	li.headSt = f.st
 	// heaps the loop writes only at objects it allocates itself: everything allocated before the loop is unchanged
 	if !mods["*"] {
